@@ -142,6 +142,43 @@ _global_filter = Contract(
     ensures=['all(implies(n.parent.type == "global_stmt", n in result) for n in names)'],
 )
 
+def _replay_global_values(inp):
+    """module attributes that exist only through `global` statements - in top-level functions, in methods and in class
+    bodies: completion after `module.` must offer them all"""
+    from pyvc.replay import run_real
+    import os
+    import tempfile
+    import shutil
+    import jedi
+    d = tempfile.mkdtemp(prefix='c03glob_', dir='/var/tmp')
+    try:
+        with open(os.path.join(d, 'gm.py'), 'w') as f:
+            f.write('def configure():\n    global configured_top\n    configured_top = 1\n'
+                    'class Registry:\n    def connect(self):\n        global connection_method\n'
+                    '        connection_method = 2\n'
+                    '    class Inner:\n        def f(self):\n            global deep_nested\n            deep_nested = 3\n')
+        code = 'import gm\ngm.'
+        out = run_real(lambda: sorted(c.name for c in jedi.Script(code, path=os.path.join(d, 'use.py'),
+                                                                  project=jedi.Project(d)).complete(2, 3)
+                                      if c.name in ('configured_top', 'connection_method', 'deep_nested')))
+        return {}, out
+    finally:
+        shutil.rmtree(d, ignore_errors=True)
+
+
+_global_values = Contract(
+    id='C03.GlobalNameFilter.values', prop='C03',
+    clause='`global` declarations anywhere in a module - in functions, methods, nested classes - make module-level '
+           'names: the module\'s global filter lists EVERY name that stands in a global statement of the module',
+    file='jedi/inference/filters.py', qualname='GlobalNameFilter.values',
+    params={'self': Obj('GFilter')}, families=['GFilter', 'UsedNamesG', 'PNode'], ret=Seq(_PN),
+    ensures=['all(all(implies(n.parent is not None and the(n.parent).type == "global_stmt", n in result) for n in nl) '
+             'for nl in self._used_names.values())'],
+    witness={}, replay=_replay_global_values, concrete_only=True, witness_library=[{}],
+    concrete_ensures=['result == ["configured_top", "connection_method", "deep_nested"]'],
+    notes='_convert_names (token -> name object, one to one) is modelled as the identity; _filter is under contract above',
+)
+
 _reachable = Contract(
     id='C03.ParserTreeFilter._is_name_reachable', prop='C03',
     clause='a name counts for this scope iff its parent scope is this scope (for def/class names: the scope '
@@ -385,6 +422,13 @@ _header_rule = Contract(
 )
 
 FAMILIES = [
+    Family('GFilter', attrs={'_used_names': Obj('UsedNamesG')}, methods={
+        '_filter': FnSpec('GlobalNameFilter._filter', params=[('names', Seq(_PN))], ret=Seq(_PN), pure=True, assumed=False,
+                          ensures=['all(implies(n.parent is not None and the(n.parent).type == "global_stmt", n in result) '
+                                   'for n in names)'], note='C03.GlobalNameFilter._filter'),
+        '_convert_names': FnSpec('_convert_names', params=[('names', Seq(_PN))], ret=Seq(_PN), pure=True, assumed=True,
+                                 ensures=['result == names'], note='one name object per token (identity in the model)')}),
+    Family('UsedNamesG', methods={'values': FnSpec('UsedNames.values', ret=Seq(Seq(_PN)), pure=True)}),
     Family('CFilter', attrs={'_origin_scope': Opt(_PN), '_parser_scope': _PN, 'parent_context': _PN,
                              '_parso_cache_node': ANY}),
     Family('CtxBig', methods={'get_root_context': FnSpec('Context.get_root_context', ret=Obj('RootBig'), pure=True)}),
@@ -409,7 +453,7 @@ FAMILIES = [
     Family('FilterObj'),
 ]
 
-CONTRACTS = [_is_scope] + PARENT_SCOPE + [_abs_filter, _global_filter, _reachable, _check_flows] + _get_global_filters + [_big_lib, _header_rule] + _branch_kw + _PRIVATE
+CONTRACTS = [_is_scope] + PARENT_SCOPE + [_abs_filter, _global_filter, _global_values, _reachable, _check_flows] + _get_global_filters + [_big_lib, _header_rule] + _branch_kw + _PRIVATE
 
 
 def register(reg):
